@@ -4,7 +4,8 @@ Engine E2 over the irgen lattice of complete functions: every CFG shape with <= 
 block exists; every exit block ends with  r = r + a ; sp = sp + 4 ; IRDst = END  (add r, a ; ret): the leaf
 writes both ABI output registers, as the IRAOutRegs pattern of test/analysis/unssa.py needs; bodies over an
 alphabet with registers, stack memory reads/writes, a store through a register pointer, parallel swap, an
-uninterpreted call (call_func_ret) and stack pointer arithmetic.  The thorough tier adds a fixed list of x86_32
+uninterpreted call (call_func_ret), stack pointer arithmetic, and (ALPHA_WIDTH) narrow stores into the upper bytes /
+upper word of a 32-bit stack slot whose content is known, with wide and narrow reads of that slot.  The thorough tier adds a fixed list of x86_32
 functions assembled with miasm's own assembler and lifted with the real x86 lifter (mc/x86funcs.py).
 
 Pipelines (each on a fresh copy of the graph):
@@ -446,6 +447,9 @@ ALPHA_REG = ["a=b", "a=a+1", "swap"]
 ALPHA_MIX = ["a=b", "a=a+1", "swap", "r=a", "@[sp+4]=a", "a=@[sp+4]"]
 ALPHA_MIX3 = ["a=b", "a=a+1", "swap", "@[sp+4]=a", "a=@[sp+4]"]
 ALPHA_MEM = ["@[sp+4]=a", "a=@[sp+4]", "@[a]=b", "r=call(a)", "sp=sp-4"]
+# narrow stores at offsets >= their own size inside the wider slot @[sp+4] whose content is known, reads of the slot
+# and narrow reads of the wide store
+ALPHA_WIDTH = ["@[sp+4]=a", "@8[sp+5]=b", "@8[sp+6]=b", "@8[sp+7]=b", "@16[sp+6]=b", "r=@[sp+4]", "r=@8[sp+6]", "r=@16[sp+6]"]
 ALPHA_N2 = ["a=b", "a=a+1", "swap", "r=a", "@[sp+4]=a", "a=@[sp+4]", "@[a]=b", "r=call(a)", "sp=sp-4"]
 PLAN_Q = [
     (1, 2, ALPHA_FULL, ["a"], TWO, "add-ret"),
@@ -453,6 +457,7 @@ PLAN_Q = [
     (2, 1, ALPHA_N2, ["a"], ALL3, "add-ret"),
     (2, 1, ALPHA_N2, ["a"], TWO, "ret"),
     (3, 1, ["a=a+1", "swap"], ["a"], ("ssa",), "add-ret"),
+    (1, 3, ALPHA_WIDTH, ["a"], ("ssa",), "add-ret"),
 ]
 PLAN_T = [
     (1, 3, ALPHA_FULL, ["a"], TWO, "add-ret"),
@@ -464,6 +469,9 @@ PLAN_T = [
     (3, 1, ALPHA_MEM, ["a"], ("ssa",), "add-ret"),
     (3, 1, ["a=a+1", "r=a", "r=call(a)"], ["a"], TWO, "ret"),
     (4, 1, ["swap"], ["a"], ("ssa",), "add-ret"),
+    (1, 3, ALPHA_WIDTH, ["a"], ALL3, "add-ret"),
+    (2, 2, ["@[sp+4]=a", "@8[sp+6]=b", "@16[sp+6]=b", "r=@[sp+4]", "r=@16[sp+6]"], ["a"], ("ssa",), "add-ret"),
+    (3, 1, ["@[sp+4]=a", "@8[sp+5]=b", "@8[sp+7]=b", "@16[sp+6]=b", "r=@[sp+4]", "r=@8[sp+6]"], ["a"], ("ssa",), "add-ret"),
 ]
 
 
